@@ -3,7 +3,7 @@ from contracts_types import *
 NAME = 'scalars'
 FEATURES = []
 USES = ['use vstd::string::*;', 'use vstd::utf8::*;']
-PRELUDE = ['common.shim.rs', 'str.shim.rs', 'scalars.spec.rs']
+PRELUDE = ['common.shim.rs', 'error.spec.rs', 'str.shim.rs', 'scalars.spec.rs']
 SUBST = SUBST_COMMON
 P = ['C06', 'C01']
 S = 'src/parse_scalars.rs'
